@@ -222,7 +222,7 @@ def run(chk, args):
         raise
     chk.note("%d behaviours to replay; longest estimated %.0fs" % (len(plans), max(pr.cost_s(p["steps"]) for p in plans)))
     longest = max(pr.cost_s(p["steps"]) for p in plans)
-    outs = pr.run_plans(binary, TEST, plans, parallel=14 if quick else 16, timeout=longest + 120)
+    outs = pr.run_plans(binary, TEST, plans, parallel=16, timeout=longest + 120)
     chk.note("replays done (slowest %.0fs)" % max(o.wall for o in outs))
     results = [None] * len(outs)
 
@@ -247,6 +247,7 @@ def run(chk, args):
     if box["cov"]:
         chk.cov["action_counts"] = box["cov"]
     skipped = 0
+    pending = {}     # signature -> first (out, status, what)
     for out, res in zip(outs, results):
         if res is None:
             chk.fail("internal: no judgement for %s" % out.plan["name"])
@@ -268,7 +269,8 @@ def run(chk, args):
         elif status == "broken":
             chk.fail("%s: %s" % (out.plan["name"], what))
         else:
-            confirm(chk, binary, out, status, sig, what)
+            pending.setdefault(sig, (out, status, what))
+    confirm(chk, binary, pending)
     if skipped:
         chk.cov["skipped_clauses"] = ["replay of %d behaviours against the real proxy: %s" % (skipped, "no non-loopback interface")]
         chk.note("replays skipped: no non-loopback interface")
@@ -289,26 +291,38 @@ def run(chk, args):
     ]
 
 
-def confirm(chk, binary, out, status, sig, what):
-    """Re-run the same behaviour alone with doubled waiting bounds.  A
-    divergence or an unexplained event that does not come back is not a
-    verdict (exit 2); an invariant violation on a recorded execution is
-    reported at once."""
-    if status == "violation" and "/trace-rejected/" not in sig:
-        chk.violation(sig, "%s [behaviour %s]" % (what, out.plan["name"]), {"plan": out.plan, "trace": out.events[-60:]})
+def confirm(chk, binary, pending):
+    """An invariant violation on a recorded execution is reported at once.  A
+    divergence (the proxy never took a step) or an event the model cannot
+    explain is re-run alone with doubled waiting bounds, one representative
+    per signature, all representatives in parallel; if it does not come back
+    it is not a verdict (exit 2)."""
+    todo = []
+    for sig, (out, status, what) in sorted(pending.items()):
+        if status == "violation" and "/trace-rejected/" not in sig:
+            chk.violation(sig, "%s [behaviour %s]" % (what, out.plan["name"]), {"plan": out.plan, "trace": out.events[-60:]})
+        else:
+            todo.append((sig, out, status, what))
+    todo = todo[:6]
+    if not todo:
         return
-    plan = dict(out.plan)
-    plan["wait_ms"] = 2 * plan.get("wait_ms", 40000)
-    plan["name"] = plan["name"] + "-confirm"
-    o2 = pr.run_one(binary, TEST, plan, pr.cost_s(plan["steps"]) + 240)
-    s2, sig2, what2 = judge(o2)
-    if s2 in ("violation", "diverged") and sig2 == sig:
-        chk.violation(sig, "%s [behaviour %s, confirmed by an isolated re-run]" % (what, out.plan["name"]), {"plan": out.plan, "trace": out.events[-60:]})
-    else:
-        os.makedirs(chk.replay_dir, exist_ok=True)
-        with open(os.path.join(chk.replay_dir, "unconfirmed-%s.json" % out.plan["name"]), "w") as fh:
-            json.dump({"signature": sig, "what": what, "replay": {"plan": out.plan}, "first": out.events, "second": o2.events}, fh)
-        chk.fail("%s: %s (%s) was not reproduced by an isolated re-run (second run: %s %s)" % (out.plan["name"], sig, what, s2, sig2))
+    plans = []
+    for sig, out, status, what in todo:
+        plan = dict(out.plan)
+        plan["wait_ms"] = 2 * plan.get("wait_ms", 40000)
+        plan["name"] = plan["name"] + "-confirm"
+        plans.append(plan)
+    chk.note("confirming %d signature(s) by isolated re-runs" % len(plans))
+    outs2 = pr.run_plans(binary, TEST, plans, parallel=len(plans), timeout=max(pr.cost_s(p["steps"]) for p in plans) + 400)
+    for (sig, out, status, what), o2 in zip(todo, outs2):
+        s2, sig2, what2 = judge(o2)
+        if s2 in ("violation", "diverged") and sig2 == sig:
+            chk.violation(sig, "%s [behaviour %s, confirmed by an isolated re-run]" % (what, out.plan["name"]), {"plan": out.plan, "trace": out.events[-60:]})
+        else:
+            os.makedirs(chk.replay_dir, exist_ok=True)
+            with open(os.path.join(chk.replay_dir, "unconfirmed-%s.json" % out.plan["name"]), "w") as fh:
+                json.dump({"signature": sig, "what": what, "replay": {"plan": out.plan}, "first": out.events, "second": o2.events}, fh)
+            chk.fail("%s: %s (%s) was not reproduced by an isolated re-run (second run: %s %s)" % (out.plan["name"], sig, what, s2, sig2))
 
 
 def replay(chk, binary, path):
